@@ -679,3 +679,54 @@ def observe_top(view):
     s = view.size()
     head = "%d%d%d:%s" % (view.ok(), view.is_complete(), view.size_known(), "-" if s is U else str(s))
     return head, observe(view)
+
+
+# ------------------------------------------------------------------ logical equality (C20)
+def logical_equal(va, vb):
+    """Equality as doc/cpp-reference.md defines Equals(): both views agree on which fields are present and every
+    present physical field reads equal (recursively; arrays element by element).  Both views must be Ok."""
+    sdef = va.sdef
+    for f in sdef.fields:
+        members = f.type[1] if (f.type is not None and f.type[0] == "anon") else [f]
+        for g in members:
+            if g.virtual:
+                continue
+            ha, hb = va.has(g.name), vb.has(g.name)
+            if ha is U or hb is U:
+                return None
+            if ha != hb:
+                return False
+            if ha is not True:
+                continue
+            xa, xb = va.view_of(g.name), vb.view_of(g.name)
+            r = _views_equal(xa, xb)
+            if r is not True:
+                return r
+    return True
+
+
+def _views_equal(xa, xb):
+    if xa.kind == "scalar":
+        a, b = xa.value(), xb.value()
+        if a is U or b is U:
+            return None
+        if isinstance(a, tuple) and a[0] == "float":
+            # IEEE NaN never "reads equal"; whether Equals() should treat identical NaN bits as equal is unspecified
+            for v, n in ((a[1], xa.nbits), (b[1], xb.nbits)):
+                ebits, mbits = (8, 23) if n == 32 else (11, 52)
+                if (v >> mbits) & ((1 << ebits) - 1) == (1 << ebits) - 1 and v & ((1 << mbits) - 1):
+                    return None
+            if (a[1] << 1) & ((1 << xa.nbits) - 1) == 0 and (b[1] << 1) & ((1 << xb.nbits) - 1) == 0:
+                return True         # +0.0 == -0.0
+        return a == b
+    if xa.kind == "struct":
+        return logical_equal(xa, xb)
+    if xa.kind == "array":
+        if xa.count() != xb.count():
+            return False
+        for i in range(xa.count()):
+            r = _views_equal(xa.element(i), xb.element(i))
+            if r is not True:
+                return r
+        return True
+    return None
